@@ -393,7 +393,7 @@ pub unsafe extern "C" fn read(fd: c_int, buf: *mut c_void, count: size_t) -> ssi
         Some(FaultAction::Short(k)) => n = n.min(k.max(1)),
         _ => {}
     }
-    if st.short_read_pct > 0 && count > 1 {
+    if st.short_read_pct > 0 && count > 1 && st.paths[id].in_sandbox {
         let r = simkit::prng::splitmix64(&mut st.short_read_state);
         if (r % 100) < st.short_read_pct as u64 {
             let k = 1 + ((r >> 8) % (count as u64)) as usize;
